@@ -23,7 +23,7 @@ def numeric : List Nat := [0, 1, 2, 3, 4, 5, 6, 7, 8, 9, 10]
 /-- the operand kinds of the statement (numeric Vars, Python int / float) and more (Python bool,
     numpy scalars of every numeric dtype) -/
 def operands : List Operand :=
-  numeric.map .var ++ [.pyInt 3, .pyFloat, .pyBool true] ++ numeric.map .npScalar
+  numeric.map .var ++ [.pyInt 3, .pyInt 0, .pyInt 1, .pyFloat, .pyBool true, .pyBool false] ++ numeric.map .npScalar
 
 def Operand.isVar : Operand → Bool
   | .var _ => true
